@@ -12,6 +12,8 @@ use crate::model::*;
 pub const NAME_WORDS: &[&str] = &[
     "salt", "flour", "water", "oil", "olive", "crème", "jalapeño", "7up", "egg", "sugar", "Butter", "milk",
     "🧄", "pan", "pot", "bowl", "large", "fresh", "all-purpose", "baker's", "Öl", "ñame", "bread1",
+    // blanks that are not the ASCII space stay inside a name, whatever the spacing around the words is
+    "crème\u{a0}fraîche", "中華\u{3000}鍋", "half\u{2009}fat",
 ];
 pub const TEXT_WORDS: &[&str] = &[
     "Mix", "the", "and", "well", "then", "add", "until", "golden", "Bake", "for", "about", "with", "of",
@@ -20,17 +22,17 @@ pub const TEXT_WORDS: &[&str] = &[
 pub const PUNCT: &[&str] = &[",", ".", ";", "!", ":", "(", ")", "'", "/", "&", "%", "*", "+", "?", "|", "-", "…", "—", ">", "="];
 pub const ESCAPED: &[char] = &['@', '#', '~', '{', '}', '\\', '[', '-', '>', '=', 'é', 'a', '|', '%'];
 pub const TEXT_NUMS: &[&str] = &["2", "350", "10", "1", "45", "\u{2212}5", "±2", "\u{2212}18"];
-pub const UNITS: &[&str] = &["g", "kg", "ml", "l", "cup", "cups", "tsp", "tbsp", "oz", "lb", "bag", "cloves", "big pinch", "fl oz", "L", "grams", "EL", "Pkg", "tsp.", "fl. oz."];
+pub const UNITS: &[&str] = &["g", "kg", "ml", "l", "cup", "cups", "tsp", "tbsp", "oz", "lb", "bag", "cloves", "big pinch", "fl oz", "L", "grams", "EL", "Pkg", "tsp.", "fl. oz.", "fl\u{a0}oz", "fl\u{2009}oz"];
 pub const TIME_UNITS: &[&str] = &["min", "minutes", "h", "hours", "s", "sec", "d", "day", "secs", "mins", "minute", "hour", "seconds", "days"];
 pub const TEXT_VALUES: &[&str] = &["a pinch", "some", "to taste", "handful", "a dash", "half a", "plenty", "one or two", "1/0-x", "1/2-some", "2-x"];
 pub const INLINE_UNITS: &[&str] = &["ºC", "°F", "kg", "ml", "C", "minutes"];
 pub const INLINE_NUMS: &[&str] = &["180", "350", "2", "1.5", "0.5"];
 pub const META_KEYS: &[&str] = &[
     "note", "origin", "my key", "wine pairing", "x", "Kitchen", "season", "equipment notes", "clé", "rating", "k1", "k2", "k3", "diet", "cuisine", "difficulty",
-    "image", "nota bene", "[mode", "[duplicate", "define]", "[x",
+    "image", "nota bene", "[mode", "[duplicate", "define]", "[x", "nota\u{a0}bene",
 ];
 pub const META_VALUES: &[&str] = &["value", "a longer value", "https://example.org/a?b=c", "1", "yes: no", "Ünïcode ✓", "it's \"quoted\"", "a, b, c", "3.5 stars", "steps", "ref", "text", "serve  cold", "a  |  b"];
-pub const SECTION_NAMES: &[&str] = &["Dough", "Filling", "To serve", "Step 2 prep", "Crème", "sauce & sides"];
+pub const SECTION_NAMES: &[&str] = &["Dough", "Filling", "To serve", "Step 2 prep", "Crème", "sauce & sides", "À\u{a0}part"];
 pub const STEP_LINES: &[&str] = &[">> note: remember the oven", ">> [optional: add more of it", ">> see note [a]: later", ">> wine pairing: red", ">> my key : spaced out", ">>x:y"];
 pub const TEXT_MODE_COMPONENTS: &[&str] = &["@salt{1%tsp}(flaky, if possible)", "#pan{}(big)", "@olive oil{2%tbsp}", "@&salt{}", "@water{1/2%l}(cold)", "#bowl", "@flour{=200%g}", "#&pan(hot)"];
 pub const DEC_FRACS: &[&str] = &["5", "25", "05", "75", "125", "0", "50"];
